@@ -8,6 +8,7 @@
 // z=null-terminated pointer; hex = fixed-width big-endian hex per code unit.
 #include "upa/url.h"
 #include <cstdio>
+#include <iomanip>
 #include <algorithm>
 #include <cctype>
 #include <cstdint>
@@ -511,6 +512,57 @@ static std::string run_cmd(const std::vector<std::string>& a) {
         refresh_sp(s);
         return "set " + state(s);
     }
+    if (c == "fmt") {   // fmt <slot> <width> <l|r>: stream insertion of a getter's view with width, adjustment and fill
+        need(3); const int s = slot_of(a[1]); if (s < 0) return "ERR";
+        upa::url& u = U(s); if (!u.is_valid()) return "fmt skipped";
+        std::ostringstream o;
+        o << '[' << std::setw(static_cast<int>(sz_of(a[2]))) << std::setfill('*');
+        if (a[3] == "l") o << std::left; else o << std::right;
+        o << u.hostname() << "][" << std::setw(3) << 7 << ']';
+        return "fmt " + hx(o.str());
+    }
+    if (c == "parse_selfbase") {   // u.parse(input, u.href()): the base string is a view of the object's own buffer
+        need(2);
+        const int s = slot_of(a[1]); Tok t; if (s < 0 || !parse_tok(a[2], t)) return "ERR bad-args";
+        upa::url& u = U(s);
+        if (!u.is_valid()) return "parse skipped";
+        validation_errc r = validation_errc::ok;
+        const upa::string_view own = u.href();
+        switch (t.enc) {
+        case 'b': case 'c': WITH_STR(t, S, r = u.parse(S, own)); break;
+        default: return "parse skipped";     // both strings must have the same character type
+        }
+        refresh_sp(s);
+        return std::string("parse ") + (r == validation_errc::ok ? "ok" : "fail") + " " + state(s);
+    }
+    if (c == "usp_selfname") {   // usp_selfname <k> <op> <i> <n> [value]: the name argument is a view into the i-th pair's own name
+        need(4);
+        const int k = slot_of(a[1]); if (k < 0) return "ERR";
+        if (!g_usp[k]) g_usp[k].reset(new upa::url_search_params());
+        upa::url_search_params& p = *g_usp[k];
+        const std::size_t i = sz_of(a[3]), n = sz_of(a[4]);
+        auto it = p.begin(); std::size_t j = 0;
+        while (it != p.end() && j < i) { ++it; ++j; }
+        if (it == p.end()) return "usp skipped";
+        const upa::string_view name{ it->first.data(), n < it->first.size() ? n : it->first.size() };
+        const std::string& op = a[2];
+        std::ostringstream extra;
+        if (a.size() == 5) {
+            if (op == "has") { const bool h = p.has(name); extra << " has=" << (h ? 1 : 0); }
+            else if (op == "get") { const std::string* g = p.get(name); extra << " get=" << (g ? hx(*g) : std::string("null")); }
+            else if (op == "getall") { const auto l = p.get_all(name); extra << " getall="; bool f = true; for (auto& x : l) { extra << (f ? "" : ",") << hx(x); f = false; } if (f) extra << "-"; }
+            else if (op == "del") p.del(name);
+            else if (op == "remove") { const std::size_t c2 = p.remove(name); extra << " removed=" << c2; }
+            else return "ERR";
+        } else {
+            Tok v; if (!parse_tok(a[5], v) || (v.enc != 'b' && v.enc != 'c')) return "ERR";
+            if (op == "set") p.set(name, v.s8);
+            else if (op == "has2") { const bool h = p.has(name, v.s8); extra << " has=" << (h ? 1 : 0); }
+            else if (op == "del2") p.del(name, v.s8);
+            else return "ERR";
+        }
+        return "usp " + usp_state(p) + extra.str();
+    }
     if (c == "setself") {
         // setself <slot> <setter> <getter>: the argument is the view one of the object's own getters returned
         need(3);
@@ -534,6 +586,13 @@ static std::string run_cmd(const std::vector<std::string>& a) {
     if (c == "clear") { need(1); const int s = slot_of(a[1]); if (s < 0) return "ERR"; ARM(U(s).clear()); return "clear " + state(s); }
     if (c == "copy") { need(2); const int d = slot_of(a[1]), s = slot_of(a[2]); if (d < 0 || s < 0) return "ERR"; ARM(U(d) = U(s)); refresh_sp(d); return "copy " + state(d) + " | " + state(s); }
     if (c == "copyctor") { need(2); const int d = slot_of(a[1]), s = slot_of(a[2]); if (d < 0 || s < 0 || d == s) return "ERR"; { upa::url& src_ = U(s); std::unique_ptr<upa::url> nu_; ARM(nu_.reset(new upa::url(src_))); g_url[d] = std::move(nu_); } refresh_sp(d); return "copyctor " + state(d) + " | " + state(s); }
+    if ((c == "move" || c == "safe_assign" || c == "swap") && a.size() == 3 && slot_of(a[1]) >= 0 && slot_of(a[1]) == slot_of(a[2])) {
+        // the object is moved / safe-assigned / swapped onto itself (through a second reference, as generic code would)
+        const int d = slot_of(a[1]); upa::url& x = U(d); upa::url* volatile alias = &x;
+        if (c == "move") { ARM(x = std::move(*alias)); } else if (c == "safe_assign") { ARM(x.safe_assign(std::move(*alias))); } else { ARM(x.swap(*alias)); }
+        refresh_sp(d);
+        return c + " " + state(d) + " | " + state(d);
+    }
     if (c == "move") { need(2); const int d = slot_of(a[1]), s = slot_of(a[2]); if (d < 0 || s < 0 || d == s) return "ERR"; { upa::url& dst_ = U(d); upa::url& src_ = U(s); ARM(dst_ = std::move(src_)); } refresh_sp(d); refresh_sp(s); return "move " + state(d) + " | " + state(s); }
     if (c == "movector") { need(2); const int d = slot_of(a[1]), s = slot_of(a[2]); if (d < 0 || s < 0 || d == s) return "ERR"; std::unique_ptr<upa::url> nu(new upa::url(std::move(U(s)))); g_url[d] = std::move(nu); refresh_sp(d); refresh_sp(s); return "movector " + state(d) + " | " + state(s); }
     if (c == "safe_assign") { need(2); const int d = slot_of(a[1]), s = slot_of(a[2]); if (d < 0 || s < 0 || d == s) return "ERR"; { upa::url& dst_ = U(d); upa::url& src_ = U(s); ARM(dst_.safe_assign(std::move(src_))); } refresh_sp(d); refresh_sp(s); return "safe_assign " + state(d) + " | " + state(s); }
